@@ -1,5 +1,10 @@
 # coding: utf-8
-"""Sidecar contracts for moclo/moclo/core/parts.py."""
+"""Sidecar contracts for moclo/moclo/core/parts.py.
+
+C05: for every part class that derives its structure from its signature, the structure is the signature-free
+(generic) structure of the same enzyme and role with groups 1 and 3 replaced by the two signature halves
+(module role: upstream then downstream; vector role: downstream then upstream).  characterize(record) returns an
+instance of the first candidate type that accepts the record and raises RuntimeError exactly when none does."""
 from __future__ import annotations
 
 from pyvc import term as tm
@@ -8,27 +13,195 @@ from pyvc.values import VT, VObj, VNone, NONE, VTuple, VList, VDict, VClass
 from pyvc.contract import Contract, LoopSpec
 
 FILE = "moclo/moclo/core/parts.py"
+SEQI = tm.seq_sort(INT)
+
+
+def enzyme_table():
+    """real constants of every qualifying enzyme (and the three 3'-overhang flags)"""
+    from bounded import gen
+    out = {}
+    for (name, e, site, a, k) in gen.qualifying_enzymes():
+        out[name] = dict(elucidate=e.elucidate(), ovhgseq=e.ovhgseq, is_5overhang=e.is_5overhang(),
+                         is_3overhang=e.is_3overhang(), is_blunt=e.is_blunt(), is_unknown=e.is_unknown(),
+                         site=site, a=a, k=k)
+    return out
+
+
+def generic_structure(info, role):
+    """the documented generic structure (C01.C1 checks the real AbstractModule/AbstractVector.structure() against it)"""
+    from bounded import gen
+    site, a, k = info["site"], info["a"], info["k"]
+    rs = gen.rc(site)
+    if role == "module":
+        return site + "N" * a + "(" + "N" * k + ")(NN*N)(" + "N" * k + ")" + "N" * a + rs
+    return "N(" + "N" * k + ")(" + "N" * a + rs + "N*" + site + "N" * a + ")(" + "N" * k + ")N"
+
+
+class PartStructure(Contract):
+    file, qual = FILE, "AbstractPart.structure"
+    props = ("C05", "C04")
+
+    def __init__(self):
+        self._table = None
+
+    @property
+    def variants(self):
+        if self._table is None:
+            self._table = enzyme_table()
+        seen, out = set(), []
+        for name, info in sorted(self._table.items()):
+            g = (len(info["site"]), info["a"], info["k"])
+            if g in seen and name not in ("BsaI", "BsmBI", "BpiI", "BbsI"):
+                continue
+            seen.add(g)
+            out += ["%s/module" % name, "%s/vector" % name]
+        return out + ["no-role"]
+
+    def setup(self, ex, st, variant):
+        if variant == "no-role":
+            cls = ex.models.sym_class("AbstractPart", tm.V("cls", INT))
+            cls.roles = {"AbstractPart"}
+            cls.cutter_info = self._table["BsaI"]
+            return dict(cls=cls)
+        name, role = variant.split("/")
+        cls = ex.models.sym_class("AbstractPart", tm.V("cls", INT))
+        cls.roles = {"AbstractPart", "AbstractModule" if role == "module" else "AbstractVector"}
+        cls.cutter_info = self._table[name]
+        return dict(cls=cls)
+
+    def requires(self, ex, st, a):
+        c = a["cls"].sym
+        k = a["cls"].cutter_info["k"]
+        return [("signature-halves-have-overhang-length",
+                 tm.and_(tm.eq(tm.slen(tm.app("upsig", STR, c)), k), tm.eq(tm.slen(tm.app("downsig", STR, c)), k)))]
+
+    def raises(self, ex, st, a):
+        if a["cls"].roles == {"AbstractPart"}:
+            return [("RuntimeError", tm.TRUE, None)]
+        return []
+
+    def ensures(self, ex, pre, st, a, result):
+        cls = a["cls"]
+        c = cls.sym
+        info = cls.cutter_info
+        role = "module" if "AbstractModule" in cls.roles else "vector"
+        g = generic_structure(info, role)
+        grp = "(" + "N" * info["k"] + ")"
+        pre_, mid, post = g.split(grp)
+        up, down = tm.app("upsig", STR, c), tm.app("downsig", STR, c)
+        first, third = (up, down) if role == "module" else (down, up)
+        want = tm.concat(pre_, "(", first, ")", mid, "(", third, ")", post)
+        return [("generic-structure-with-groups-1-and-3-replaced-by-the-signature", tm.eq(result.t, want))]
+
+    def result(self, ex, st, a):
+        return [(st, VT(tm.fresh("structure", STR)))]
+
+    def model_terms(self, ex, st, a):
+        c = a["cls"].sym
+        return dict(upsig=tm.app("upsig", STR, c), downsig=tm.app("downsig", STR, c))
+
+
+class CharLoop(LoopSpec):
+    def __init__(self, con):
+        self.con = con
+
+    def invariant(self, ex, st, ctx):
+        j = tm.V("j", INT)
+        C = self.con.cands(st)
+        return [("no-earlier-candidate-accepts", tm.forall_range(j, 0, ctx["k"], tm.not_(accepts(tm.seqnth(C, j), self.con.rec))))]
+
+
+def accepts(c, rec):
+    return tm.app("accepts", BOOL, c, rec)
 
 
 class Characterize(Contract):
-    """characterize(record): an instance of a candidate type that accepts the record; RuntimeError exactly when no
-    candidate type accepts it.  (abstract view used by registries; the body is checked in C05)"""
+    """characterize(record): an instance of a candidate type that accepts the record (the first one, in the order
+    direct subclasses then the class itself when it is concrete); RuntimeError exactly when no candidate accepts it."""
     file, qual = FILE, "AbstractPart.characterize"
     props = ("C05", "C20")
-    trusted_body = True
+    variants = ("abstract-base", "concrete-base")
 
     def setup(self, ex, st, variant):
-        return dict(cls=ex.models.sym_class("AbstractPart", tm.V("cls", INT)),
-                    record=ex.models.sym_record(st, "CircularRecord", "record"))
+        ex.models.elem_kind = "PartClass"
+        cls = ex.models.sym_class("AbstractPart", tm.V("cls", INT))
+        cls.subclasses = tm.V("subs", SEQI)
+        cls.is_abstract = tm.B(variant == "abstract-base")
+        rec = ex.models.sym_record(st, "CircularRecord", "record")
+        st.set_inplace(rec, "ident", VT(tm.V("rec", INT)))
+        self.rec = tm.V("rec", INT)
+        self.loops = {0: CharLoop(self)}
+        self._cls = cls
+        return dict(cls=cls, record=rec)
+
+    def cands(self, st):
+        cls = self._cls
+        C = cls.subclasses
+        if not tm.cval(cls.is_abstract):
+            C = tm.seqcat(C, tm.sequnit(cls.sym))
+        return C
+
+    def _C(self, a):
+        cls = a["cls"]
+        if not hasattr(cls, "subclasses"):
+            return None
+        C = cls.subclasses
+        if not tm.cval(cls.is_abstract):
+            C = tm.seqcat(C, tm.sequnit(cls.sym))
+        return C
 
     def raises(self, ex, st, a):
-        return [("RuntimeError", None, None)]
+        C = self._C(a)
+        if C is None:
+            return [("RuntimeError", None, None)]
+        j = tm.V("j", INT)
+        rec = st.get(a["record"], "ident").t
+        return [("RuntimeError", tm.forall_range(j, 0, tm.seqlen(C), tm.not_(accepts(tm.seqnth(C, j), rec))), None)]
+
+    def ensures(self, ex, pre, st, a, result):
+        C = self._C(a)
+        if C is None:
+            return []
+        rec = pre.get(a["record"], "ident").t
+        if not isinstance(result, VObj):
+            return [("returns-an-entity", tm.FALSE)]
+        rc_ = st.get(result, "__class__")
+        c = rc_.sym if rc_ is not None and hasattr(rc_, "sym") else None
+        if c is None:
+            return [("returns-an-instance-of-a-candidate", tm.FALSE)]
+        j, i = tm.V("j", INT), tm.V("i", INT)
+        return [("candidate-accepts-the-record", accepts(c, rec)),
+                ("is-a-candidate-type", tm.exists_range(j, 0, tm.seqlen(C), tm.eq(tm.seqnth(C, j), c))),
+                ("wraps-the-record", tm.B(st.get(result, "record") is a["record"]))]
 
     def result(self, ex, st, a):
         st = st.fork()
         e = VObj("AbstractPart")
         st.set_inplace(e, "record", a["record"])
+        c = ex.models.sym_class("AbstractPart", tm.fresh("cand", INT))
+        st.set_inplace(e, "__class__", c)
         return [(st, e)]
 
+    def model_terms(self, ex, st, a):
+        C = self._C(a)
+        return dict(candidates=C) if C is not None else {}
 
-CONTRACTS = [Characterize()]
+
+class IsAbstract(Contract):
+    """ASSUMED (trusted_body): moclo._utils.isabstract(cls) -- inspect.isabstract(cls) or some attribute is
+    NotImplemented -- is a constant of the class (reflection over dir(cls) is outside the modelled subset)"""
+    file, qual = "moclo/moclo/_utils.py", "isabstract"
+    props = ("C05",)
+    trusted_body = True
+
+    def setup(self, ex, st, variant):
+        return dict(cls=ex.models.sym_class("AbstractPart", tm.V("cls", INT)))
+
+    def result(self, ex, st, a):
+        c = a["cls"]
+        if hasattr(c, "is_abstract"):
+            return [(st, VT(c.is_abstract))]
+        return [(st, VT(tm.app("isabstract", BOOL, c.sym)))]
+
+
+CONTRACTS = [PartStructure(), Characterize(), IsAbstract()]
